@@ -137,6 +137,10 @@ class Gen:
             return self.r.choice(["typeof ", "-", "!", "void ", "+"]) + self.operand(d - 1)
         if k < 85:
             self.tags.add('delete')
+            if self.r.chance(1, 3):
+                self.tags.add('delete-of-a-chain')
+                ch = self.ident() + "?." + self.method() + "(" + self.r.choice(["", "1"]) + ")" + self.r.choice([".c", "[k]", ".p.q"])
+                return "delete " + self.r.choice(["(" + ch + ")", ch, "((" + ch + "))"])
             return "delete " + self.ident() + "[" + self.expr(d - 1) + "]"
         if k < 87:
             return self.r.choice(["++", "--"]) + self.ident()
@@ -177,7 +181,10 @@ class Gen:
             return self.ident() + "." + self.r.choice(["p", "q"])
         if k < 9:
             self.tags.add('target-computed')
-            return self.ident() + "[" + self.r.choice(["k", "i++", "f()", "'key'"]) + "]"
+            key = self.r.choice(["k", "i++", "f()", "'key'", "('key')", "(0)", "((`k`))"])
+            if key.startswith("("):
+                self.tags.add('target-key-parenthesised-literal')
+            return self.r.choice([self.ident(), self.ident() + "()"] if key.startswith("(") and self.r.chance(1, 3) else [self.ident()]) + "[" + key + "]"
         if k == 9 and self.r.chance(1, 2):
             self.tags.add('target-op-in-key')
             return self.ident() + "[" + self.r.choice([self.ident() + " + " + self.ident(), self.ident() + "." + self.method() + "()", "`k${" + self.ident() + "}`",
@@ -314,7 +321,7 @@ class Gen:
         return path + "." + m + ".apply(" + this + ", " + arr + extra + ")"
 
     def opt_chain(self, d):
-        k = self.r.below(12)
+        k = self.r.below(15)
         a = self.r.choice([self.ident(), self.ident(), self.ident() + "()", self.strlit(), "(" + self.expr(d) + ")"])
         if self.r.chance(1, 12):
             self.tags.add('optchain-on-literal')
@@ -342,7 +349,16 @@ class Gen:
             return "fn?.(" + self.args(d) + ")." + m + "()"
         if k == 10:
             return a + ".b?.(" + self.args(d) + ")." + m + "(" + self.args(d) + ")"
-        return a + "?." + m + "()." + self.method() + "(" + self.args(d) + ")"
+        if k == 11:
+            return a + "?." + m + "()." + self.method() + "(" + self.args(d) + ")"
+        if k == 12:
+            self.tags.add('optcall-on-chain-member')
+            return a + self.r.choice(["?.b?.(", "?.b.c?.(", "?.[k]?.(", "?.b?.c?.("]) + self.args(d) + ")." + m + "(" + self.args(d) + ")"
+        if k == 13:
+            self.tags.add('optcall-bare-configured-name')
+            return m + "?.(" + self.args(d) + ")"
+        self.tags.add('optcall-on-chain-member')
+        return a + "?.b?.(" + self.args(d) + ")?." + m + "()"
 
     def params(self, d):
         n = self.r.below(3)
@@ -643,7 +659,7 @@ def gen_requests(seed, n, depth=3, cfg_mode='mixed', id_base=0, **extra):
                 methods = names + ["custom", "toLowerCase"]
         g = Gen(gr, methods=methods)
         src, tags = g.program(depth if gr.chance(3, 4) else max(1, depth - 1))
-        req = {"id": id_base + i, "cfg": cfg, "src": src, "file": gr.choice(["test.js", "dir/sub/file.js", "/abs/path/mod.mjs", "x.js"]), "tags": tags}
+        req = {"id": id_base + i, "cfg": cfg, "src": src, "file": gr.choice(["test.js", "dir/sub/file.js", "/abs/path/mod.mjs", "x.js", "test.js", "dir/sub/file.js", "file:///app/esm/x.mjs", "win\\style\\name.js"]), "tags": tags}
         req.update(extra)
         out.append(req)
     return out
